@@ -276,8 +276,12 @@ def run(ctx) -> None:
                 tg = lp.target.elts[0] if isinstance(lp.target, ast.Tuple) and lp.target.elts else lp.target
                 if isinstance(tg, ast.Name) and tg.id == k.id and any(isinstance(x, ast.Name) and x.id in tables for x in ast.walk(lp.iter)):
                     return True
+            # a key unpacked from the table: (spelling, value), = table.items()
+            if isinstance(lp, ast.Assign) and any(isinstance(x, ast.Name) and x.id in tables for x in ast.walk(lp.value)) and any(
+                    isinstance(x, ast.Name) and x.id == k.id and isinstance(x.ctx, ast.Store) for t in lp.targets if not isinstance(t, ast.Name) for x in ast.walk(t)):
+                return True
         return False
-    ref_sites = [s for s in sites if key_is_reference_spelling(s.key if s.kind == "plain" else None) or
+    ref_sites = [s for s in sites if key_is_reference_spelling(s.key if s.kind == "plain" else None) or (s.kind == "plain" and is_table(s.key)) or
                  (s.kind == "regex" and any(key_is_reference_spelling(k) or is_table(k) for k in regex_keys(s)))]
     table_sites = [s for s in ref_sites if s.kind == "regex" and any(is_table(k) for k in regex_keys(s))]
     legacy_sites = [s for s in ref_sites if s not in table_sites]
